@@ -116,6 +116,22 @@ def check_one(case, ctx, deep):
         import json
         loaded = ctx.call('fromjson(raw)', plain, concepts.Context.fromjson, io.StringIO(json.dumps(pd)), raw=True)
         check_lattice(loaded.lattice, 'fromjson(raw)/', case, ref, maps, ctx, plain)
+        if deep and len(ref.concepts) <= 200:
+            # the other ways a lattice comes back: the python-literal text (the lattice is embedded once computed),
+            # plain JSON text, pickle and deepcopy
+            import copy
+            import pickle
+            text = ctx.call('tostring(python-literal)', plain, context.tostring, 'python-literal')
+            loaded = ctx.call('fromstring(python-literal)', plain, concepts.Context.fromstring, text, 'python-literal')
+            check_lattice(loaded.lattice, 'python-literal/', case, ref, maps, ctx, plain)
+            buf = io.StringIO()
+            ctx.call('tojson', plain, context.tojson, buf)
+            loaded = ctx.call('fromjson', plain, concepts.Context.fromjson, io.StringIO(buf.getvalue()))
+            check_lattice(loaded.lattice, 'json/', case, ref, maps, ctx, plain)
+            check_lattice(ctx.call('pickle(lattice)', plain, lambda: pickle.loads(pickle.dumps(lattice))), 'pickle/', case, ref, maps,
+                          ctx, plain)
+            check_lattice(ctx.call('deepcopy(context)', plain, lambda: copy.deepcopy(context).lattice), 'deepcopy/', case, ref, maps,
+                          ctx, plain)
 
 
 def plan(tier, seed):
